@@ -148,6 +148,7 @@ func (bas *BlockAddrSchema) Copy() *BlockAddrSchema {
 		AsTypeOf:                 bas.AsTypeOf.Copy(),
 		BodyAsData:               bas.BodyAsData,
 		InferBody:                bas.InferBody,
+		BodySelfRef:              bas.BodySelfRef,
 		DependentBodyAsData:      bas.DependentBodyAsData,
 		InferDependentBody:       bas.InferDependentBody,
 		DependentBodySelfRef:     bas.DependentBodySelfRef,
